@@ -45,6 +45,16 @@ NoBlockScope(C) == HasDev(C, "VM_NO_BLOCK_SCOPE") \/ HasDev(C, "INTERP_NO_BLOCK_
 \* answers void as well.  Everywhere else (and without the switch) arrays are one kind of value.
 LitArr(C, ref) == IF HasDev(C, "INTERP_STATIC_ARRAYS") THEN [VArr(ref) EXCEPT !.s = "lit"] ELSE VArr(ref)
 
+\* String literals: the abstract syntax carries the characters the literal denotes; in source text a tab, a newline, a double
+\* quote and a backslash are written \t \n \" \\ (INFERRED: docs/STDLIB.md file_append example and the repository's examples use
+\* "\n" for a line break; native code gets exactly that).  RAW_STRING_ESCAPES: the NanoVM code generator and the evaluator take
+\* the source spelling as the content: the two characters backslash, t instead of a tab, and so on.
+RECURSIVE RawEsc(_, _, _)
+RawEsc(x, k, acc) ==
+   IF k > Len(x) THEN acc
+   ELSE LET c == SubSeq(x, k, k) IN
+        RawEsc(x, k + 1, acc \o (CASE c = "\t" -> "\\t" [] c = "\n" -> "\\n" [] c = "\"" -> "\\\"" [] c = "\\" -> "\\\\" [] OTHER -> c))
+
 \* -------------------------------------------------------- program tables
 FuncIdx(C, name)   == FindName(C.p.funcs, name)
 ExternIdx(C, name) == FindName(C.p.externs, name)
@@ -148,7 +158,7 @@ Eval(C, e, st0) ==
    CASE e.k = "int"  -> RV(VInt(e.i), st)
      [] e.k = "float" -> RV(VFloat(e.i), st)
      [] e.k = "bool" -> RV(VBool(e.s = "true"), st)
-     [] e.k = "str"  -> RV(VStr(e.s), st)
+     [] e.k = "str"  -> RV(VStr(IF HasDev(C, "RAW_STRING_ESCAPES") THEN RawEsc(e.s, 1, "") ELSE e.s), st)
      [] e.k = "var"  -> LET l == LookupVar(C, e.s, st) IN
                         IF l.ok THEN RV(l.v, st) ELSE RV(VVoid, Fault(st, "stuck:unbound"))
      [] e.k = "enum" -> LET p == FindEV(C.p.enums, e.s, 1, 1) IN
@@ -221,6 +231,9 @@ Eval(C, e, st0) ==
                              ELSE RV(VUnion(e.s, [d \in 1..Len(defs) |-> r.vs[IndexOf(e.f, defs[d], 1)]]), r.st)
      [] e.k = "tlit" -> LET r == EvalList(C, e.a, 1, <<>>, st) IN
                         IF Bad(r.st) THEN RV(VVoid, r.st) ELSE RV(VTuple(r.vs), r.st)
+     [] e.k = "alit" /\ HasDev(C, "INTERP_NO_NESTED_ARRAYS") /\ Len(e.a) > 0 /\ e.a[1].k = "alit" ->
+                        \* eval.c has no arrays of arrays: `Unsupported array element type`, the literal yields void
+                        LET r == EvalList(C, e.a, 1, <<>>, st) IN RV(VVoid, r.st)
      [] e.k = "alit" /\ HasDev(C, "INTERP_ARRAY_LIT_FIRST_TWICE") /\ Len(e.a) > 0 ->
                         \* eval.c evaluates the first element once to find the element type and then every element
                         LET r0 == Eval(C, e.a[1], st)
@@ -235,7 +248,9 @@ Eval(C, e, st0) ==
      [] OTHER -> RV(VVoid, Fault(st, "stuck:expr"))
 
 CallFn(C, name, args, st) ==
-   LET l == LookupVar(C, name, st)
+   \* CALL_PREFERS_TOPLEVEL_FUNCTION: all three engines resolve the callee of (f x) among the top-level functions first, so a
+   \* parameter or local of function type named like a top-level function is never called (8.1 says the innermost binder wins)
+   LET l == IF HasDev(C, "CALL_PREFERS_TOPLEVEL_FUNCTION") /\ FuncIdx(C, name) # 0 THEN [ok |-> TRUE, v |-> VFn(name)] ELSE LookupVar(C, name, st)
        target == IF l.ok /\ l.v.t = "fn" THEN l.v.s ELSE name
        fi == FuncIdx(C, target) IN
    IF l.ok /\ l.v.t # "fn" THEN RV(VVoid, Fault(st, "stuck:notfn"))
